@@ -30,7 +30,7 @@ void h_frame_ecdsa_verify(void) {
     __CPROVER_assume(scalar_ok(&r) && scalar_ok(&s));   /* representation invariant of a signature object (established by every parser) */
     ret = secp256k1_ecdsa_verify(&c1, p_sig, has_msg ? fv_msg : NULL, p_pk);
     CTX_FRAME(c1, "C20 frames ecdsa_verify: the context object is not written");
-    __CPROVER_assert(ret == 0 || ret == 1, "C20 frames ecdsa_verify: returns 0 or 1");
+    if (g_illegal == 0) __CPROVER_assert(ret == 0 || ret == 1, "C20 frames ecdsa_verify: returns 0 or 1");
     if (ret == 1) REACH("ecdsa_verify accepts");
     if (ret == 0 && g_illegal == 0) REACH("ecdsa_verify rejects without callback");
 }
@@ -45,7 +45,7 @@ void h_frame_pubkey_parse(void) {
     ret = secp256k1_ec_pubkey_parse(&c2, p_pk, has_in ? in : NULL, len);
     WITNESS_BUF(pp_in, in, len, 70);
     CTX_FRAME(c2, "C20 frames ec_pubkey_parse: the context object is not written");
-    __CPROVER_assert(ret == 0 || ret == 1, "C20 frames ec_pubkey_parse: returns 0 or 1");
+    if (g_illegal == 0) __CPROVER_assert(ret == 0 || ret == 1, "C20 frames ec_pubkey_parse: returns 0 or 1");
     if (ret == 1 && len == 33) REACH("pubkey_parse accepts a compressed key");
     if (ret == 1 && len == 65) REACH("pubkey_parse accepts an uncompressed key");
 }
@@ -59,7 +59,7 @@ void h_frame_pubkey_serialize(void) {
     INPUT_BUF(ps_out, out, outlen, 80);
     ret = secp256k1_ec_pubkey_serialize(&c3, has_out ? out : NULL, p_outlen, p_pk, flags);
     CTX_FRAME(c3, "C20 frames ec_pubkey_serialize: the context object is not written");
-    __CPROVER_assert(ret == 0 || ret == 1, "C20 frames ec_pubkey_serialize: returns 0 or 1");
+    if (g_illegal == 0) __CPROVER_assert(ret == 0 || ret == 1, "C20 frames ec_pubkey_serialize: returns 0 or 1");
     if (ret == 1 && outlen == 33) REACH("pubkey_serialize compressed");
     if (ret == 1 && outlen == 65) REACH("pubkey_serialize uncompressed");
 }
@@ -74,7 +74,7 @@ void h_frame_schnorrsig_verify(void) {
     INPUT_BUF(sv_msg, msg, msglen, 100);
     ret = secp256k1_schnorrsig_verify(&c4, has_sig ? sv_sig : NULL, has_msg ? msg : NULL, msglen, p_xpk);
     CTX_FRAME(c4, "C20 frames schnorrsig_verify: the context object is not written");
-    __CPROVER_assert(ret == 0 || ret == 1, "C20 frames schnorrsig_verify: returns 0 or 1");
+    if (g_illegal == 0) __CPROVER_assert(ret == 0 || ret == 1, "C20 frames schnorrsig_verify: returns 0 or 1");
     if (ret == 1) REACH("schnorrsig_verify accepts");
     if (ret == 0 && g_illegal == 0) REACH("schnorrsig_verify rejects without callback");
 }
